@@ -173,16 +173,17 @@ Example ex_close_error_after_nonvacuous :
   final_state (r_log r) (0, 0) = BClosed /\ pairs_eqb (aborted_buckets (r_log r)) [(0, 0); (1, 1); (2, 2)] = true.
 Proof. vm_compute. repeat split; reflexivity. Qed.
 
-(* a second round re-plans share 0 from server 0 to server 1: since /repo 111e37b the selector does not ask server 1
-   for it (before, both held a writer and set_shareholders raised AssertionError) *)
+(* server 2 fails in the first round; the second plan moves share 0 from server 0 (which holds a writer for it) to
+   server 1: since /repo 111e37b the selector asks server 1 for share 1 only (before, both servers held a writer for
+   share 0 and set_shareholders raised AssertionError) *)
 Definition ex_replan : script :=
   {| x_existing := [(0, ExOk []); (1, ExOk []); (2, ExOk [])];
      x_rounds := [ {| r_plan := [(0, Some 0); (1, Some 2)]; r_resps := [(0, AlOk [] [0]); (2, AlErr)] |};
-                   {| r_plan := [(0, Some 1); (1, Some 0)]; r_resps := [(0, AlOk [] [1]); (2, AlOk [] [])] |} ];
+                   {| r_plan := [(0, Some 1); (1, Some 1)]; r_resps := [(1, AlOk [] [1]); (2, AlOk [] []); (0, AlOk [] [])] |} ];
      x_writes := []; x_close := [(0, COk); (1, COk)] |}.
 
 Example ex_replan_nonvacuous :
-  let r := upload_run {| c_happy := 1%Z; c_total := 2; c_ro := []; c_rw := [0; 1; 2] |} ex_replan in
-  verdict_eqb (r_verdict r) VSuccess = true /\ pairs_eqb (r_placed r) [(0, 0); (1, 0)] = true /\
-  all_queries_eqb (r_queries r) [[(0, [0]); (2, [1])]; [(0, [1]); (2, [])]] = true.
+  let r := upload_run {| c_happy := 2%Z; c_total := 2; c_ro := []; c_rw := [0; 1; 2] |} ex_replan in
+  verdict_eqb (r_verdict r) VSuccess = true /\ pairs_eqb (r_placed r) [(0, 0); (1, 1)] = true /\
+  all_queries_eqb (r_queries r) [[(0, [0]); (2, [1])]; [(0, []); (1, [1]); (2, [])]] = true.
 Proof. vm_compute. repeat split; reflexivity. Qed.
